@@ -245,9 +245,11 @@ for _cls in 'WP':
 PER_TU = 9
 
 
-def generate(outdir):
+def generate(outdir, core_only=False):
     os.makedirs(outdir, exist_ok=True)
     shapes = all_shapes()
+    if core_only:
+        shapes = [s for s in shapes if s['core']]
     meta = {'gen_version': GEN_VERSION, 'shapes': [], 'mon_sites': [], 'files': []}
     units = []
     cur, cnt = [], 0
